@@ -333,7 +333,7 @@ inductive RecType | alert | ccs | appData | handshake | other
 
 inductive Cond
   | always | alertLenBad | closeNotify | levelWarning | levelError | levelOther
-  | ccsBodyBad | handPending | notExpect | notExpectAndHandPending
+  | ccsBodyBad | handPending | notExpect | notExpectAndHandPending | handBufPending
   | notCompleteOrExpect | dataEmpty | dataEmptyOrExpect
   | complete                    -- handshakeComplete (false during a handshake)
   | completeAndDwell            -- DTLCP: post-handshake retransmission window (false during a handshake)
@@ -353,6 +353,7 @@ def conds : List (String × Cond) :=
    ("data[0] default", .levelOther), ("len(data) != 1 || data[0] != 1", .ccsBodyBad),
    ("c.hand.Len() > 0", .handPending), ("!expectChangeCipherSpec", .notExpect),
    ("!expectChangeCipherSpec && c.handBuf.Len() > 0", .notExpectAndHandPending),
+   ("c.handBuf.Len() > 0", .handBufPending),
    ("!handshakeComplete || expectChangeCipherSpec", .notCompleteOrExpect),
    ("len(data) == 0", .dataEmpty), ("len(data) == 0 || expectChangeCipherSpec", .dataEmptyOrExpect),
    ("handshakeComplete", .complete),
@@ -387,16 +388,19 @@ structure Rec where
   typ : RecType
   empty : Bool
   warning : Bool
+  /-- unread handshake bytes are pending in c.hand / c.handBuf when the record arrives -/
+  pending : Bool := false
 
 def recOf : Kind → Rec
-  | .ccs => ⟨.ccs, false, false⟩
-  | .warningAlert => ⟨.alert, false, true⟩
-  | .appData => ⟨.appData, false, false⟩
-  | .emptyRecord => ⟨.handshake, true, false⟩
-  | _ => ⟨.handshake, false, false⟩
+  | .ccs => ⟨.ccs, false, false, false⟩
+  | .warningAlert => ⟨.alert, false, true, false⟩
+  | .appData => ⟨.appData, false, false, false⟩
+  | .emptyRecord => ⟨.handshake, true, false, false⟩
+  | _ => ⟨.handshake, false, false, false⟩
 
 /-- truth of a condition for a well-formed record during a handshake (`handshakeComplete =
-false`, no partial handshake message pending: every symbol of the alphabet is a whole message) -/
+false`); `r.pending` says whether whole unread handshake messages are still buffered (only
+possible when several messages were coalesced into one record) -/
 def evalCond (r : Rec) (expect : Bool) : Cond → Bool
   | .always => true
   | .alertLenBad => false
@@ -405,9 +409,10 @@ def evalCond (r : Rec) (expect : Bool) : Cond → Bool
   | .levelError => !r.warning
   | .levelOther => false
   | .ccsBodyBad => false
-  | .handPending => false
+  | .handPending => r.pending
+  | .handBufPending => r.pending
   | .notExpect => !expect
-  | .notExpectAndHandPending => false
+  | .notExpectAndHandPending => !expect && r.pending
   | .notCompleteOrExpect => true
   | .dataEmpty => r.empty
   | .dataEmptyOrExpect => r.empty || expect
@@ -448,6 +453,7 @@ structure Prog where
 structure Ctl where
   stack : List (Nat × Nat)        -- (function, pc), innermost first
   cur : Option Kind               -- the message `msg` holds
+  pending : List Kind             -- whole messages still unread in c.hand (coalesced record)
   got : List HsType               -- asserted message types that matched (mandatory or optional)
   peerCerts : Bool                -- len(c.peerCertificates) > 0
   keys : Bool                     -- establishKeys ran: the next cipher state is prepared
@@ -458,7 +464,7 @@ structure Ctl where
   deriving DecidableEq, Repr
 
 def Ctl.init (root : Nat) : Ctl :=
-  { stack := [(root, 0)], cur := none, got := [], peerCerts := false, keys := false, sets := [],
+  { stack := [(root, 0)], cur := none, pending := [], got := [], peerCerts := false, keys := false, sets := [],
     cookieSent := false, helloCookie := false, completed := false }
 
 def curType (q : Ctl) : Option HsType := q.cur.bind hsTypeOf
@@ -515,7 +521,14 @@ def step (cfg : Cfg) (P : Prog) (q : Ctl) : Step :=
       if !(g.guard.all (evalAtom cfg q)) then .next (withPc q f (pc + 1) rest) else
       match g.op with
       | .nop => .next (withPc q f (pc + 1) rest)
-      | .read => .wait
+      | .read =>
+        match q.pending with
+        | [] => .wait
+        | k :: more =>
+          -- readHandshake finds the next message already buffered
+          .next { withPc q f (pc + 1) rest with
+                  cur := some k, pending := more,
+                  helloCookie := if k == .clientHello then q.cookieSent else q.helloCookie }
       | .ccs => .wait
       | .must t ne =>
         match q.cur with
@@ -581,7 +594,7 @@ def next (cfg : Cfg) (P : Prog) : Q → Kind → Outcome Q
   | none, _ => .fail            -- the handshake is over: nothing more is consumed by it
   | some q, k =>
     let expect := expectsCCS P q
-    match classify P.table (recOf k) expect with
+    match classify P.table { recOf k with pending := !q.pending.isEmpty } expect with
     | .retry => .retry (some q)
     | .hand =>
       -- bytes go to c.hand; only a blocked readHandshake picks the message up
@@ -594,6 +607,24 @@ def next (cfg : Cfg) (P : Prog) : Q → Kind → Outcome Q
       -- c.in.changeCipherSpec(): alertInternalError when no cipher was prepared
       if !expect || !q.keys then .fail
       else ofHalt k P (advance cfg P fuel (bumpPc q))
+    | _ => .fail
+
+/-- a handshake record that carries several whole messages back to back (outside the alphabet
+of the language theorems; used by the oracle for the coalescing probes) -/
+def nextRec (cfg : Cfg) (P : Prog) : Q → List Kind → Outcome Q
+  | q, [k] => next cfg P q k
+  | none, _ => .fail
+  | some _, [] => .fail
+  | some q, k :: more =>
+    let expect := expectsCCS P q
+    if !(k :: more).all Kind.isHandshake then .fail else
+    match classify P.table { recOf k with pending := !q.pending.isEmpty } expect with
+    | .hand =>
+      if expect then .fail
+      else if !q.pending.isEmpty then .goOn (some { q with pending := q.pending ++ (k :: more) }) (resets P k)
+      else ofHalt k P (advance cfg P fuel
+        { bumpPc q with cur := some k, pending := more,
+                        helloCookie := if k == .clientHello then q.cookieSent else q.helloCookie })
     | _ => .fail
 
 def auto (cfg : Cfg) (P : Prog) : Auto Q := { next := next cfg P, accepting := fun q => q.isNone }
@@ -648,19 +679,29 @@ inductive Obs
   | completed (at_ : Nat) | failed (at_ : Nat) | pending
   deriving DecidableEq, Repr
 
-def observeFrom (A : Auto Q) (max : Nat) : St Q → List Kind → Nat → Obs
-  | .dead, _, i => .failed (i - 1)
-  | .run q _, [], i => if A.accepting q then .completed (i - 1) else .pending
-  | .run q n, k :: ks, i =>
-    if A.accepting q then .completed (i - 1) else
-    observeFrom A max (A.feed max (.run q n) k) ks (i + 1)
+/-- one record = one or more message kinds -/
+def feedRec (cfg : Cfg) (P : Prog) (max : Nat) : St Q → List Kind → St Q
+  | .dead, _ => .dead
+  | .run q n, r =>
+    match nextRec cfg P q r with
+    | .retry q' => if n + 1 > max then .dead else .run q' (n + 1)
+    | .goOn q' rs => .run q' (if rs then 0 else n)
+    | .fail => .dead
 
-def observe (s : Skeleton) (root : String) (cfg : Cfg) (w : List Kind) : Option Obs :=
+def observeFrom (cfg : Cfg) (P : Prog) (max : Nat) : St Q → List (List Kind) → Nat → Obs
+  | .dead, _, i => .failed (i - 1)
+  | .run q _, [], i => if q.isNone then .completed (i - 1) else .pending
+  | .run q n, r :: rs, i =>
+    if q.isNone then .completed (i - 1) else
+    observeFrom cfg P max (feedRec cfg P max (.run q n) r) rs (i + 1)
+
+/-- what the driver observes for a sequence of records (each a list of coalesced message kinds) -/
+def observe (s : Skeleton) (root : String) (cfg : Cfg) (w : List (List Kind)) : Option Obs :=
   match ofSkeleton s root with
   | none => none
   | some P =>
     match start cfg P with
     | none => none
-    | some q0 => some (observeFrom (auto cfg P) s.maxUseless (.run q0 0) w 0)
+    | some q0 => some (observeFrom cfg P s.maxUseless (.run q0 0) w 0)
 
 end Gotlcp.Model.Flow
